@@ -224,13 +224,14 @@ class SyncRun:
                              any(bytes(f) == b'\\Deleted' for f in m.permanent_flags)])
         self.events.append({'e': 'state', 'rows': rows})
 
-    def dump(self, mbx: str) -> None:
-        """glass-box dump of a mailbox: uids, permanent flags, stored recent bits"""
+    def dump(self, mbx: str, norw: bool = False) -> None:
+        """glass-box dump of a mailbox: uids, permanent flags, stored recent bits
+        (norw: no session has the mailbox selected read-write)"""
         mset = self.w.mailbox_set()
         data = mset._inbox if mbx.upper() == 'INBOX' else mset._set.get(mbx)
         uids = sorted(data._messages) if data is not None else []
         self.events.append({
-            'e': 'dump', 'mbx': mbx, 'uids': uids,
+            'e': 'dump', 'mbx': mbx, 'uids': uids, 'norw': norw,
             'flags': [sorted(bytes(f).decode() for f in data._messages[u].permanent_flags)
                       for u in uids],
             'rbits': [bool(data._messages[u].recent) for u in uids]})
@@ -380,7 +381,7 @@ class SyncRun:
         if cmd[0] == 'idle' and inf.get('ended_by'):
             ev.append({'e': 'idleend', 's': s, 'input': inf['ended_by'], 'cond': cond})
         if code == 'COPYUID':
-            self._copyuid(s, r.code[1].decode())
+            self._copyuid(s, r.code[1].decode(), inf)
         if code == 'APPENDUID' and inf:
             v, _, us = r.code[1].decode().partition(' ')
             dest = inf['cmd'][1]
@@ -409,8 +410,8 @@ class SyncRun:
         data = self._data(mbx)
         return self.validity_idx(data._uid_validity) if data is not None else 0
 
-    def _copyuid(self, s: str, args: str) -> None:
-        inf = self.inflight[s]
+    def _copyuid(self, s: str, args: str, inf=None) -> None:
+        inf = inf or self.inflight[s]
         v, src, dst = args.split(' ')
         dest = inf['cmd'][3] if inf else ''
         o, realv = self._delivered_to(s, dest)
